@@ -3,7 +3,11 @@
 //! * size constants overridable at compile time through `MLA_VERIF_*`
 //!   environment variables (unset => production value);
 //! * a thread-local event recorder, off unless a harness turns it on.
+//! * when `MLA_VERIF_TRACE_DIR` is set at run time, every event is also
+//!   appended (one JSON object per line) to a file per thread in that
+//!   directory: traces of the test suite and of `mlar`.
 use std::cell::RefCell;
+use std::io::Write;
 
 /// Parse a decimal `option_env!` value at compile time, `default` if unset
 pub const fn env_u64(value: Option<&str>, default: u64) -> u64 {
@@ -48,8 +52,58 @@ pub fn take_events() -> Vec<Event> {
     RECORDER.with(|r| r.borrow_mut().take().unwrap_or_default())
 }
 
+thread_local! {
+    static TRACE_FILE: RefCell<Option<Option<std::fs::File>>> = const { RefCell::new(None) };
+}
+
+fn open_trace_file() -> Option<std::fs::File> {
+    static COUNTER: std::sync::atomic::AtomicU64 = std::sync::atomic::AtomicU64::new(0);
+    let dir = std::env::var_os("MLA_VERIF_TRACE_DIR")?;
+    let n = COUNTER.fetch_add(1, std::sync::atomic::Ordering::Relaxed);
+    let thread = std::thread::current();
+    let name: String = thread
+        .name()
+        .unwrap_or("unnamed")
+        .chars()
+        .map(|c| if c.is_ascii_alphanumeric() { c } else { '_' })
+        .collect();
+    let path =
+        std::path::Path::new(&dir).join(format!("{}-{n}-{name}.ndjson", std::process::id()));
+    std::fs::OpenOptions::new()
+        .create(true)
+        .append(true)
+        .open(path)
+        .ok()
+}
+
+fn trace_to_file(name: &'static str, fields: &[(&'static str, i64)]) {
+    TRACE_FILE.with(|t| {
+        let mut t = t.borrow_mut();
+        if let Some(file) = t.get_or_insert_with(open_trace_file) {
+            let mut line = format!("{{\"ev\":\"{name}\"");
+            for (k, v) in fields {
+                line.push_str(&format!(",\"{k}\":{v}"));
+            }
+            line.push_str("}\n");
+            let _ = file.write_all(line.as_bytes());
+        }
+    });
+}
+
+/// 64-bit FNV-1a of a string (names are logged by hash and length)
+#[allow(clippy::cast_possible_wrap)]
+pub fn name_hash(s: &str) -> i64 {
+    let mut h: u64 = 0xcbf2_9ce4_8422_2325;
+    for b in s.as_bytes() {
+        h ^= u64::from(*b);
+        h = h.wrapping_mul(0x0100_0000_01b3);
+    }
+    h as i64
+}
+
 /// Record an event if recording is on
 pub fn emit(name: &'static str, fields: &[(&'static str, i64)]) {
+    trace_to_file(name, fields);
     RECORDER.with(|r| {
         if let Some(v) = r.borrow_mut().as_mut() {
             v.push(Event {
